@@ -16,9 +16,9 @@ VARIABLES st
 ShapeSet == ShapesOf(0..MaxRank, 1..MaxExt) \cup (IF Rank4Ext > 0 THEN ShapesOf({4}, 1..Rank4Ext) ELSE {})
 
 \* ---- catalogues
-FloatCat == <<NaN, PInf, NInf, X(0), NZ, X(1), X(-1), Rat(5, 2), Rat(-5, 2), FMax, NMax, X(7), Rat(1, 2), X(-3)>>
-SIntCat  == <<X(0), X(1), X(-1), X(7), X(-7), IMinS, IMaxS, Sym(1, -2), Sym(1, 1), X(3)>>
-UIntCat  == <<X(0), X(1), X(7), IMaxU, X(-2), Sym(1, 0), Sym(1, -1), X(3)>>
+FloatCat == <<NaN, PInf, NInf, Fin(0), NZ, Fin(1), Fin(-1), Rat(5, 2), Rat(-5, 2), FMax, NMax, Fin(7), Rat(1, 2), Fin(-3)>>
+SIntCat  == <<Fin(0), Fin(1), Fin(-1), Fin(7), Fin(-7), IMinS, IMaxS, Sym(1, -2), Sym(1, 1), Fin(3)>>
+UIntCat  == <<Fin(0), Fin(1), Fin(7), IMaxU, Fin(-2), Sym(1, 0), Sym(1, -1), Fin(3)>>
 BoolCat  == <<TRUE, FALSE>>
 Cat(dt) == IF dt \in FloatTypes THEN FloatCat ELSE IF dt \in SIntTypes THEN SIntCat
            ELSE IF dt \in UIntTypes THEN UIntCat ELSE BoolCat
@@ -29,7 +29,7 @@ OpTypes(op) == IF op \in LogicOps THEN {"bool"}
 IdT(op, shape, base) ==
    IF op \in LogicOps
    THEN T("bool", shape, [k \in 1..Size(shape) |-> (((k + base) * (k + base + 1)) \div 2) % 3 = 0])
-   ELSE T("f32", shape, [k \in 1..Size(shape) |-> X(IF op = "Div" THEN (IF base = 0 THEN 6 * k ELSE k) ELSE base + k)])
+   ELSE T("f32", shape, [k \in 1..Size(shape) |-> Fin(IF op = "Div" THEN (IF base = 0 THEN 6 * k ELSE k) ELSE base + k)])
 
 SelectSeq2(s, Test(_)) == SelectSeq(s, Test)
 
